@@ -11,7 +11,7 @@ PROPERTY_UNITS = {
     'C10': ['u_exp2'],
     'C11': ['u_exp3', 'u_exp2', 'u_blt', 'u_plan', 'u_args', 'u_fd'],
     'C07': ['u_fd', 'u_proc', 'u_plan', 'u_jobs', 'u_wait', 'u_jcmd'],
-    'C15': ['u_args', 'u_script'],
+    'C15': ['u_args', 'u_script', 'u_list'],
     'C09': ['u_env', 'u_exp2', 'u_proc', 'u_read'],
     'C02': ['u_fd', 'u_wait', 'u_plan', 'u_blt'],
     'C04': ['u_fd', 'u_plan', 'u_bfd', 'u_blt'],
